@@ -119,7 +119,15 @@ Closed(S) == LET E == DirEdges(S) IN
 \* the four outward faces of the tetrahedron (a, b, c, d) with det(b-a, c-a, d-a) > 0
 TetSurface(a, b, c, d) == <<<<a, c, b>>, <<a, b, d>>, <<a, d, c>>, <<b, c, d>>>>
 IsTetSurface(S) == Len(S) = 4 /\ S = TetSurface(S[1][1], S[1][3], S[1][2], S[2][3])
-IsPillow(S) == Len(S) = 2 /\ S[2] = <<S[1][1], S[1][3], S[1][2]>>
+\* a triangle and its reverse (the reverse written from any starting vertex)
+Reversals(f) == {<<f[1], f[3], f[2]>>, <<f[3], f[2], f[1]>>, <<f[2], f[1], f[3]>>}
+IsPillow(S) == Len(S) = 2 /\ S[2] \in Reversals(S[1])
+\* kinds of input whose closedness is structural: "tet" = one tetrahedron, "pillow" = one pillow, each
+\* optionally followed by a companion tetrahedron; every other kind is checked edge by edge
+IsTetKind(S) == /\ Len(S) \in {4, 8} /\ IsTetSurface(SubSeq(S, 1, 4))
+                /\ (Len(S) = 8 => IsTetSurface(SubSeq(S, 5, 8)))
+IsPillowKind(S) == /\ Len(S) \in {2, 6} /\ IsPillow(SubSeq(S, 1, 2))
+                   /\ (Len(S) = 6 => IsTetSurface(SubSeq(S, 3, 6)))
 
 \* ------------------------------------------------------------ validation of one record
 \* Clause names are kept short: TLC wraps a printed tuple longer than 80 characters over several
@@ -186,8 +194,8 @@ Report == LET c == Cases[i]  cl == IF c.exc # "" THEN "raised_" \o c.exc ELSE Cl
 InputSane ==
     LET c == Cases[i]  S == c.tri IN
     /\ Len(S) >= 1 /\ c.dd \in {1, 2, 4} /\ c.dn >= 0
-    /\ CASE c.kind = "tet" -> IsTetSurface(S)
-         [] c.kind = "pillow" -> IsPillow(S)
+    /\ CASE c.kind = "tet" -> IsTetKind(S)
+         [] c.kind = "pillow" -> IsPillowKind(S)
          [] OTHER -> Closed(S)
     /\ \A k \in 1..Len(c.obs) : \A m \in 1..Len(c.obs[k].frames) : IsRotation(c.obs[k].frames[m].R)
 
@@ -210,6 +218,9 @@ TetDirect120(a, b, c, d) ==
     <<20 * det, 5 * det * s1(1), 5 * det * s1(2), 5 * det * s1(3),
       det * s2(1, 1), det * s2(2, 2), det * s2(3, 3), det * s2(1, 2), det * s2(2, 3), det * s2(3, 1)>>
 
+\* the tetrahedron whose four faces start at position k of S (in the layout of TetSurface)
+TetAt(S, k) == TetDirect120(S[k][1], S[k][3], S[k][2], S[k + 1][3])
+
 RECURSIVE BodiesSum(_, _, _, _)
 BodiesSum(S, nb, k, start) ==
     IF k > Len(nb) THEN Zero10
@@ -224,8 +235,9 @@ RefLaws ==
       /\ I120(Reverse(S)) = Neg10(G)                                   \* Volume(Reverse(S)) = -Volume(S), and all moments
       /\ I120(Translate(S, c.lt)) = Shift10(G, c.lt)                   \* translation covariance
       /\ SeqSum(c.nb, Len(c.nb)) = Len(S) /\ BodiesSum(S, c.nb, 1, 1) = G   \* additivity over bodies
-      /\ c.kind = "tet" => G = TetDirect120(S[1][1], S[1][3], S[1][2], S[2][3])
-      /\ c.kind = "pillow" => G = Zero10
+      \* signed tetrahedra from the origin = the tetrahedron's own closed form; a pillow encloses nothing
+      /\ c.kind = "tet" => G = IF Len(S) = 4 THEN TetAt(S, 1) ELSE Add10(TetAt(S, 1), TetAt(S, 5))
+      /\ c.kind = "pillow" => G = IF Len(S) = 2 THEN Zero10 ELSE TetAt(S, 3)
       \* parallel-axis and rotation law against the definition of the frame inertia:
       \*   4 D J_frame = R^T (4 D J - 5 M(N) + 5 M(4 D t - N)) R
       /\ \A k \in 1..Len(c.obs) : \A m \in 1..Len(c.obs[k].frames) :
